@@ -10,7 +10,7 @@ import traceback
 from dataclasses import dataclass, field
 from typing import Dict, List, Optional, Tuple
 
-from .seams import Sandbox, SimFile, StepBudgetExceeded, captured_stdout
+from .seams import Sandbox, SimFile, StepBudgetExceeded, StepClock, captured_stdout
 
 
 def _imports():
@@ -46,6 +46,7 @@ def open_image(file_or_path):
         with captured_stdout() as buf:
             image = actions.determine_image_type(file_or_path)
     except StepBudgetExceeded:
+        StepClock.acknowledge()
         r.exc, r.budget = "StepBudgetExceeded", True
     except Exception as e:                     # noqa: BLE001 - observation, not handling
         r.exc, r.exc_msg, r.exc_tb = type(e).__name__, str(e)[:200], _short_tb()
@@ -60,6 +61,7 @@ def run_ls(image, path: str) -> OpResult:
         with captured_stdout() as buf:
             actions.ls_action(image, path)
     except StepBudgetExceeded:
+        StepClock.acknowledge()
         r.exc, r.budget = "StepBudgetExceeded", True
     except RecursionError as e:
         r.exc, r.exc_msg = "RecursionError", ""
@@ -80,6 +82,7 @@ def run_export(image, sb: Sandbox, sub: str = "") -> ExportResult:
         with captured_stdout() as buf:
             actions.export_samples_to_wav(image, dest)
     except StepBudgetExceeded:
+        StepClock.acknowledge()
         r.exc, r.budget = "StepBudgetExceeded", True
     except RecursionError:
         r.exc = "RecursionError"
